@@ -1,3 +1,5 @@
 import Rp2.Props.C09
 #print axioms Rp2.C09.earlier_fractions_unchanged
 #print axioms Rp2.C09.model_to_date_run_is_prefix_of_full_run
+#print axioms Rp2.C09.model_truncated_history_same_fractions
+#print axioms Rp2.C09.stable_sort_commutes_with_filter
